@@ -111,6 +111,14 @@ fn sources(args: &Args, n: usize) -> Vec<String> {
     let d = multi_error_sources();
     let e = crate::c19::soup_strategy();
     let mut out = Vec::new();
+    // a few large definitions (long chains of mutually duplicate states: hundreds of milliseconds per expansion), so that
+    // anything depending on elapsed time or load shows between the concurrent expansions
+    for (k, reps) in [200usize, 150, 260].into_iter().enumerate() {
+        out.push(format!(
+            "#[derive(Logos)]\n#[logos(skip \" +\")]\nenum T {{\n    #[regex(\"A-[0-9]{{{reps}}}|B-[0-9]{{{reps}}}|C-[0-9]{{{reps}}}\")]\n    Big,\n    #[regex(\"[a-z]{{1,{}}}x\")]\n    Small,\n}}\n",
+            40 + 10 * k
+        ));
+    }
     for i in 0..n {
         match i % 6 {
             0 | 1 => out.push(a.new_tree(&mut runner).unwrap().current()),
@@ -128,7 +136,7 @@ pub fn main(args: &Args) -> i32 {
         "C16",
         &args.tier,
         args.seed,
-        "definitions from five generators (two-way-fork family built from alternations like a(b|cd)(e|fg) with colliding priorities for graph errors; the core lexing family; the conflict family; subpattern definitions with 2-4 distinct undefined references in one or two patterns; the C19 attribute soup with its malformed and must-reject attributes - diagnostics are output too) x schedules: generate()+captured graph on 8 freshly spawned threads per definition in-process, the whole batch digest recomputed in 3 child processes, logos-cli (tail-call and state-machine builds) run 3 times per sampled definition then written and --check'ed; plus histories: pairs of subpattern definitions with identical pattern texts and different subpattern bodies, the second expanded after the first on one thread vs on a fresh thread; oracle: byte equality of every output; evaluation = one generate()/CLI run; non-trivial = distinct definitions whose graph has a state with exactly two successors, >= 3 LUT references, or >= 2 graph errors or >= 2 diagnostics (counted once per schedule kind)",
+        "three fixed large definitions (long chains of duplicate states) and definitions from five generators (two-way-fork family built from alternations like a(b|cd)(e|fg) with colliding priorities for graph errors; the core lexing family; the conflict family; subpattern definitions with 2-4 distinct undefined references in one or two patterns; the C19 attribute soup with its malformed and must-reject attributes - diagnostics are output too) x schedules: generate()+captured graph on 8 freshly spawned threads per definition in-process, the whole batch digest recomputed in 3 child processes, logos-cli (tail-call and state-machine builds) run 3 times per sampled definition then written and --check'ed; plus histories: pairs of subpattern definitions with identical pattern texts and different subpattern bodies, the second expanded after the first on one thread vs on a fresh thread; oracle: byte equality of every output; evaluation = one generate()/CLI run; non-trivial = distinct definitions whose graph has a state with exactly two successors, >= 3 LUT references, or >= 2 graph errors or >= 2 diagnostics (counted once per schedule kind)",
     );
     run.assumptions = vec!["hash seeds are sampled (fresh RandomState keys per thread/process), not enumerated".into()];
     std::panic::set_hook(Box::new(|_| {}));
